@@ -4,6 +4,7 @@ package vc
 // the first definitive answer wins.
 
 import (
+	"regexp"
 	"bytes"
 	"context"
 	"fmt"
@@ -46,7 +47,16 @@ var solvers = []solverSpec{
 	}},
 }
 
+// at most this many solver processes run at a time (one per core, two cores left for the rest)
+var solverSlots = make(chan struct{}, 14)
+
 func runSolver(ctx context.Context, sp solverSpec, file string, secs int) SolverAnswer {
+	select {
+	case solverSlots <- struct{}{}:
+		defer func() { <-solverSlots }()
+	case <-ctx.Done():
+		return SolverAnswer{Solver: sp.name, Result: "cancelled"}
+	}
 	t0 := time.Now()
 	argv := sp.argv(file, secs)
 	cctx, cancel := context.WithTimeout(ctx, time.Duration(secs+2)*time.Second)
@@ -130,8 +140,34 @@ func solveOne(o *Obligation, goal, suffix, workDir string, secs int, all bool) O
 	defer cancel()
 	nruns := len(solvers)
 	ch := make(chan SolverAnswer, 3*len(solvers))
+	// staged start: one solver per variant first (the combinations that win most often), the
+	// remaining combinations only when nothing has answered after two seconds
+	late := func(vi int, sp solverSpec) bool {
+		first := map[int]string{0: "z3-new", 1: "z3", 2: "cvc5"}
+		if !o.HasInstanceVariant() || o.Cover {
+			return false
+		}
+		return first[vi] != sp.name
+	}
+	wait := func(vi int, sp solverSpec) bool {
+		if !late(vi, sp) {
+			return true
+		}
+		select {
+		case <-ctx.Done():
+			return false
+		case <-time.After(2 * time.Second):
+			return true
+		}
+	}
 	for _, sp := range solvers {
-		go func(sp solverSpec) { ch <- runSolver(ctx, sp, file, secs) }(sp)
+		go func(sp solverSpec) {
+			if !wait(0, sp) {
+				ch <- SolverAnswer{Solver: sp.name, Result: "cancelled"}
+				return
+			}
+			ch <- runSolver(ctx, sp, file, secs)
+		}(sp)
 	}
 	if o.HasInstanceVariant() {
 		// second variant: quantified loop-invariant assumptions replaced by their instances at the
@@ -144,16 +180,35 @@ func solveOne(o *Obligation, goal, suffix, workDir string, secs int, all bool) O
 			os.WriteFile(fileV, []byte(o.scriptV(false, vi, goal)), 0o644)
 			nruns += len(solvers)
 			for _, sp := range solvers {
-				go func(sp solverSpec, fileV, tag string) {
+				go func(sp solverSpec, fileV, tag string, vi int) {
+					if !wait(vi, sp) {
+						ch <- SolverAnswer{Solver: sp.name + "/" + tag[1:], Result: "cancelled"}
+						return
+					}
 					a := runSolver(ctx, sp, fileV, secs)
 					if a.Result == "sat" {
 						a.Result = "unknown" // a model of a weaker variant refutes nothing
 					}
 					a.Solver += "/" + tag[1:]
 					ch <- a
-				}(sp, fileV, tag)
+				}(sp, fileV, tag, vi)
 			}
 		}
+	}
+	// case split on the most recent control-flow merges the goal depends on, started when the
+	// plain race has not answered after a few seconds: the goal holds iff it holds under every
+	// combination of the chosen branch conditions
+	if !o.Cover {
+		nruns++
+		go func() {
+			select {
+			case <-ctx.Done():
+				ch <- SolverAnswer{Solver: "split", Result: "cancelled"}
+				return
+			case <-time.After(time.Duration(min(3, secs)) * time.Second):
+			}
+			ch <- splitSolve(ctx, o, script, goal, file, secs)
+		}()
 	}
 	var definitive *SolverAnswer
 	for i := 0; i < nruns; i++ {
@@ -230,4 +285,132 @@ func SolveAll(obls []*Obligation, workDir string, secs int, all bool, par int) [
 	}
 	wg.Wait()
 	return res
+}
+
+var defineRe = regexp.MustCompile(`^\(define-fun (\S+) \(\) \S+ `)
+var symRe = regexp.MustCompile(`[^\s()]+`)
+var iteCondRe = regexp.MustCompile(`\(ite ([^\s()]+) `)
+
+// splitConds finds the branch conditions (conditions of state merges) that the goal depends on,
+// latest first.
+func splitConds(script, goal string) []string {
+	lines := strings.Split(script, "\n")
+	def := map[string]int{}
+	for i, l := range lines {
+		if m := defineRe.FindStringSubmatch(l); m != nil {
+			def[m[1]] = i
+		}
+	}
+	seen := map[int]bool{}
+	var work []string
+	work = append(work, symRe.FindAllString(goal, -1)...)
+	// the goal is asserted on the lines after the last declare: take the trailing asserts too
+	for i := len(lines) - 1; i >= 0 && i > len(lines)-6; i-- {
+		if strings.HasPrefix(lines[i], "(assert") {
+			work = append(work, symRe.FindAllString(lines[i], -1)...)
+		}
+	}
+	condLine := map[string]int{}
+	for len(work) > 0 {
+		w := work[len(work)-1]
+		work = work[:len(work)-1]
+		i, ok := def[w]
+		if !ok || seen[i] {
+			continue
+		}
+		seen[i] = true
+		for _, m := range iteCondRe.FindAllStringSubmatch(lines[i], -1) {
+			if _, isDef := def[m[1]]; isDef || strings.Contains(m[1], "!") {
+				if old, ok := condLine[m[1]]; !ok || i > old {
+					condLine[m[1]] = i
+				}
+			}
+		}
+		work = append(work, symRe.FindAllString(lines[i], -1)...)
+	}
+	var conds []string
+	for c := range condLine {
+		conds = append(conds, c)
+	}
+	sortSlice(conds, func(a, b string) bool {
+		if condLine[a] != condLine[b] {
+			return condLine[a] > condLine[b]
+		}
+		return a < b
+	})
+	return conds
+}
+
+func sortSlice(xs []string, less func(a, b string) bool) {
+	for i := 1; i < len(xs); i++ {
+		for j := i; j > 0 && less(xs[j], xs[j-1]); j-- {
+			xs[j], xs[j-1] = xs[j-1], xs[j]
+		}
+	}
+}
+
+func splitSolve(ctx context.Context, o *Obligation, script, goal, file string, secs int) SolverAnswer {
+	t0 := time.Now()
+	conds := splitConds(script, goal)
+	if len(conds) == 0 {
+		return SolverAnswer{Solver: "split", Result: "unknown", Output: "no branch condition to split on"}
+	}
+	if len(conds) > 2 {
+		conds = conds[:2]
+	}
+	scripts := []string{script}
+	if o.HasInstanceVariant() {
+		scripts = append(scripts, o.scriptV(false, 2, goal))
+	}
+	n := 1 << len(conds)
+	results := make([]string, n)
+	var wg sync.WaitGroup
+	for k := 0; k < n; k++ {
+		wg.Add(1)
+		go func(k int) {
+			defer wg.Done()
+			var extra strings.Builder
+			for j, c := range conds {
+				if k&(1<<j) != 0 {
+					extra.WriteString("(assert " + c + ")\n")
+				} else {
+					extra.WriteString("(assert (not " + c + "))\n")
+				}
+			}
+			cctx, cancel := context.WithCancel(ctx)
+			defer cancel()
+			ach := make(chan SolverAnswer, 8)
+			cnt := 0
+			for vi, sc := range scripts {
+				idx := strings.LastIndex(sc, "(check-sat)")
+				if idx < 0 {
+					continue
+				}
+				f := fmt.Sprintf("%s.split%d_%d.smt2", strings.TrimSuffix(file, ".smt2"), k, vi)
+				os.WriteFile(f, []byte(sc[:idx]+extra.String()+sc[idx:]), 0o644)
+				for _, sp := range solvers {
+					cnt++
+					go func(sp solverSpec, f string) { ach <- runSolver(cctx, sp, f, secs) }(sp, f)
+				}
+			}
+			results[k] = "unknown"
+			for i := 0; i < cnt; i++ {
+				a := <-ach
+				if a.Result == "unsat" {
+					results[k] = "unsat"
+					cancel()
+					break
+				}
+			}
+		}(k)
+	}
+	wg.Wait()
+	ans := SolverAnswer{Solver: "split(" + strings.Join(conds, ",") + ")", Result: "unsat", Ms: time.Since(t0).Milliseconds()}
+	for _, r := range results {
+		if r != "unsat" {
+			ans.Result = "unknown"
+		}
+	}
+	ans.Output = strings.Join(results, " ")
+	return ans
 }
